@@ -319,8 +319,8 @@ def extra_rules(ctx):
     aff_s = f"({ast.unparse(aff)})" if aff is not None else "affine_penalty"
     mat_s = f"({ast.unparse(mat)})" if mat is not None else "matrix"
     ctx.ob("R3.sentinel-headroom", BD, "align_banded", "neg_inf = INT32_MIN - min penalty - min(0, min score)",
-           _same(nv, f"np.iinfo(np.int32).min - (min(gap_penalty) if {aff_s} else gap_penalty) - "
-                     f"(np.min({mat_s}.score_matrix()) if np.min({mat_s}.score_matrix()) < 0 else 0)"),
+           _same(nv, f"(np.iinfo(np.int32).min - (min(gap_penalty) if {aff_s} else gap_penalty) - np.min({mat_s}.score_matrix())) "
+                     f"if np.min({mat_s}.score_matrix()) < 0 else (np.iinfo(np.int32).min - (min(gap_penalty) if {aff_s} else gap_penalty))"),
            "the sentinel must stay above INT32_MIN after a gap penalty and a negative substitution score have BOTH been added (a band-edge "
            "cell holds neg_inf + penalty and the next diagonal step adds a score to it); the code computes " + ast.unparse(nv)[:200], ab.lineno)
     # ---- gapped seed extension: the upstream part reverses code[start - 1::-1] of BOTH sequences: it is skipped when either start is 0
